@@ -164,7 +164,7 @@ def onDatagram (s : DState) (d : Datagram) : DState :=
 
 /-- the tail of `_async_on_discovered` after `await self._event_handler(..)` -/
 def finishHandler (f : Filter) (s : DState) : DState :=
-  if f.restricting then { s with found := true } else s
+  { s with found := s.found || f.restricting }   -- `if address or identifier given: self._has_found_spa = True`
 
 /-- `_async_on_discovered` -/
 def onDiscovered (f : Filter) (s : DState) (d : Desc) (suspend : Bool) : DState :=
